@@ -440,6 +440,7 @@ macro_rules! gen_builder {
           }
           Op::Share => b.$share().box_it(),
           Op::Spy(id) => Spy { src: b, id: *id, log }.box_it(),
+          Op::Deaf => Deaf { src: b }.box_it(),
           Op::BoxIt => b.box_it(),
         }
       }
